@@ -186,9 +186,10 @@ theorem keys_markSent (k : Nat) (m : List (Nat × Call)) : keys (markSent k m) =
 
 /-- the call context stays the same object with the same immutable fields -/
 def sameCall (c c' : Call) : Prop :=
-  c'.owner = c.owner ∧ c'.qid = c.qid ∧ c'.failNoConn = c.failNoConn ∧ c'.dl = c.dl ∧ c'.cb = c.cb
+  c'.owner = c.owner ∧ c'.qid = c.qid ∧ c'.failNoConn = c.failNoConn ∧ c'.dl = c.dl ∧ c'.cb = c.cb ∧
+  (c'.unsent = true → c.unsent = true)
 
-theorem sameCall_refl (c : Call) : sameCall c c := ⟨rfl, rfl, rfl, rfl, rfl⟩
+theorem sameCall_refl (c : Call) : sameCall c c := ⟨rfl, rfl, rfl, rfl, rfl, id⟩
 
 theorem mem_markSent {k k' : Nat} {m : List (Nat × Call)} {c' : Call} (h : (k', c') ∈ markSent k m) :
     ∃ c, (k', c) ∈ m ∧ sameCall c c' := by
@@ -200,7 +201,7 @@ theorem mem_markSent {k k' : Nat} {m : List (Nat × Call)} {c' : Call} (h : (k',
     split at h
     · simp only [List.mem_cons, Prod.mk.injEq] at h
       rcases h with ⟨hk, hc⟩ | h
-      · exact ⟨c0, by simp [hk], by rw [hc]; exact ⟨rfl, rfl, rfl, rfl, rfl⟩⟩
+      · exact ⟨c0, by simp [hk], by rw [hc]; exact ⟨rfl, rfl, rfl, rfl, rfl, by simp⟩⟩
       · exact ⟨c', by simp [h], sameCall_refl _⟩
     · simp only [List.mem_cons, Prod.mk.injEq] at h
       rcases h with ⟨hk, hc⟩ | h
@@ -944,29 +945,32 @@ structure Inv (ops : List Op) (σ : Conn) (evs : List Ev) : Prop where
   /-- completions so far + still registered ≤ times set up -/
   count : ∀ o, nCompl o evs + nOwner o σ.calls ≤ nSetup o ops
 
+theorem reach_inv_step {ops σ evs op σ' e} (ih : Inv ops σ evs) (hs : step σ op = .ok (σ', e)) :
+    Inv (ops ++ [op]) σ' (evs ++ e) := by
+  obtain ⟨p1, p2, p3⟩ := step_prov hs
+  refine ⟨?_, p2 ih.nodup, ?_, ?_⟩
+  · intro k c' hm
+    rcases p1 k c' hm with ⟨c, hc, hs⟩ | ⟨-, hq⟩
+    · rw [hs.2.1]; exact ih.key k c hc
+    · exact hq
+  · intro k c' hm
+    rcases p1 k c' hm with ⟨c, hc, hs⟩ | ⟨hop, hq⟩
+    · have := ih.hist k c hc
+      rw [hs.1, hs.2.1, hs.2.2.1, hs.2.2.2.1, hs.2.2.2.2.1]
+      exact List.mem_append_left _ this
+    · rw [hq, ← hop]; simp
+  · intro o
+    have := p3 o
+    have := ih.count o
+    rw [nCompl_append, nSetup_append]
+    have : nSetup o [op] = if isSetupOf o op then 1 else 0 := by
+      simp only [nSetup, List.countP_cons, List.countP_nil]; omega
+    omega
+
 theorem reach_inv {ops σ evs} (h : Reach ops σ evs) : Inv ops σ evs := by
   induction h with
   | init => exact ⟨by simp [Conn.init], by simp [Conn.init, keys], by simp [Conn.init], by simp [Conn.init, nCompl, nOwner]⟩
-  | @snoc ops σ evs op σ' e _ hs ih =>
-    obtain ⟨p1, p2, p3⟩ := step_prov hs
-    refine ⟨?_, p2 ih.nodup, ?_, ?_⟩
-    · intro k c' hm
-      rcases p1 k c' hm with ⟨c, hc, hs⟩ | ⟨-, hq⟩
-      · rw [hs.2.1]; exact ih.key k c hc
-      · exact hq
-    · intro k c' hm
-      rcases p1 k c' hm with ⟨c, hc, hs⟩ | ⟨hop, hq⟩
-      · have := ih.hist k c hc
-        rw [hs.1, hs.2.1, hs.2.2.1, hs.2.2.2.1, hs.2.2.2.2]
-        exact List.mem_append_left _ this
-      · rw [hq, ← hop]; simp
-    · intro o
-      have := p3 o
-      have := ih.count o
-      rw [nCompl_append, nSetup_append]
-      have : nSetup o [op] = if isSetupOf o op then 1 else 0 := by
-        simp only [nSetup, List.countP_cons, List.countP_nil]; omega
-      omega
+  | snoc _ hs ih => exact reach_inv_step ih hs
 
 /-- why a result is delivered to the call context `c` registered under key `k` -/
 def DeliverWhy (σ : Conn) (op : Op) (k : Nat) (c : Call) (r : Res) : Prop :=
@@ -1462,5 +1466,471 @@ theorem gstep_no_panic {σ op} (hg : GInv σ) (hwb : op.wb σ = true) :
     · exact mass σ rfl rfl
     · exact ⟨_, rfl⟩
   | close => simp only [step, dropStep]; split <;> exact ⟨_, rfl⟩
+
+/-! ### the protocol guard stated on the history itself -/
+
+/-- query ids given to `setupCallLocked` so far -/
+def setupQids : List Op → List Nat
+  | [] => []
+  | .setup _ q _ _ _ :: t => q :: setupQids t
+  | _ :: t => setupQids t
+
+theorem setupQids_append (a b : List Op) : setupQids (a ++ b) = setupQids a ++ setupQids b := by
+  induction a with
+  | nil => rfl
+  | cons op t ih => cases op <;> simp [setupQids, ih]
+
+/-- guard of a step, stated on the history and its events only (no model state):
+* a call is set up with a query id never used before on this connection;
+* a response / error packet for `q` is caused by the request `q` having been written to the connection
+  (or `q` is an id this client never used). -/
+def Op.twb (ops : List Op) (evs : List Ev) : Op → Prop
+  | .setup _ q _ _ _ => q ∉ setupQids ops
+  | .resp q _ => Ev.pkt (.req q) ∈ evs ∨ q ∉ setupQids ops
+  | .rerr q _ => Ev.pkt (.req q) ∈ evs ∨ q ∉ setupQids ops
+  | _ => True
+
+inductive TReach : List Op → Conn → List Ev → Prop
+  | init : TReach [] Conn.init []
+  | snoc {ops σ evs op σ' e} : TReach ops σ evs → op.twb ops evs → step σ op = .ok (σ', e) →
+      TReach (ops ++ [op]) σ' (evs ++ e)
+
+theorem TReach.reach {ops σ evs} (h : TReach ops σ evs) : Reach ops σ evs := by
+  induction h with
+  | init => exact .init
+  | snoc _ _ hs ih => exact .snoc ih hs
+
+/-- once handed to the send loop, a call stays marked through the rest of `moveRequestsToSendLocked` -/
+theorem moveReqs_sent_mono {wq : List WQ} {m : List (Nat × Call)} {n : Int} {m' n' out} {q : Nat} {c : Call}
+    (h : moveReqs wq m n = .ok (m', n', out)) (hl : lookup q m = some c) (hu : c.unsent = false) :
+    ∃ c', lookup q m' = some c' ∧ c'.unsent = false := by
+  induction wq generalizing m n m' n' out c with
+  | nil =>
+    simp only [moveReqs, Except.ok.injEq, Prod.mk.injEq] at h
+    obtain ⟨rfl, -, -⟩ := h
+    exact ⟨c, hl, hu⟩
+  | cons w t ih =>
+    cases w with
+    | cancel q0 =>
+      simp only [moveReqs] at h
+      cases hr : moveReqs t m n with
+      | error p => simp [hr] at h
+      | ok r =>
+        obtain ⟨m1, n1, out1⟩ := r
+        simp only [hr, Except.ok.injEq, Prod.mk.injEq] at h
+        obtain ⟨rfl, -, -⟩ := h
+        exact ih hr hl hu
+    | req o0 q0 =>
+      simp only [moveReqs] at h
+      cases hl0 : lookup q0 m with
+      | none => simp only [hl0] at h; exact ih h hl hu
+      | some c0 =>
+        simp only [hl0] at h
+        by_cases hu0 : c0.unsent = true
+        · simp only [hu0, Bool.not_true, Bool.false_eq_true, if_false] at h
+          by_cases ho : (c0.owner != o0) = true
+          · simp [ho] at h
+          · simp only [ho, Bool.false_eq_true, if_false] at h
+            cases hr : moveReqs t (markSent q0 m) (n + 1) with
+            | error p => simp [hr] at h
+            | ok r =>
+              obtain ⟨m1, n1, out1⟩ := r
+              simp only [hr, Except.ok.injEq, Prod.mk.injEq] at h
+              obtain ⟨rfl, -, -⟩ := h
+              have hne : q ≠ q0 := by
+                intro e; subst e; rw [hl] at hl0; simp only [Option.some.injEq] at hl0; subst hl0; simp [hu] at hu0
+              exact ih hr (by rw [lookup_markSent_ne hne]; exact hl) hu
+        · simp only [Bool.not_eq_true] at hu0
+          simp [hu0] at h
+
+theorem lookup_markSent_self {q : Nat} {m : List (Nat × Call)} {c : Call} (h : lookup q m = some c) :
+    lookup q (markSent q m) = some { c with unsent := false } := by
+  induction m with
+  | nil => simp [lookup] at h
+  | cons y t ih =>
+    obtain ⟨k, c0⟩ := y
+    simp only [lookup] at h
+    simp only [markSent]
+    split at h
+    · rename_i hk; simp only [Option.some.injEq] at h; subst h; simp [hk, lookup]
+    · rename_i hk; simp only [hk, if_false, lookup]; exact ih h
+
+/-- every request written by the send loop belongs to a call that is marked sent afterwards -/
+theorem moveReqs_out_sent {wq : List WQ} {m : List (Nat × Call)} {n : Int} {m' n' out} {q : Nat}
+    (h : moveReqs wq m n = .ok (m', n', out)) (hq : Pkt.req q ∈ out) :
+    ∃ c', lookup q m' = some c' ∧ c'.unsent = false := by
+  induction wq generalizing m n m' n' out with
+  | nil =>
+    simp only [moveReqs, Except.ok.injEq, Prod.mk.injEq] at h
+    obtain ⟨-, -, rfl⟩ := h
+    simp at hq
+  | cons w t ih =>
+    cases w with
+    | cancel q0 =>
+      simp only [moveReqs] at h
+      cases hr : moveReqs t m n with
+      | error p => simp [hr] at h
+      | ok r =>
+        obtain ⟨m1, n1, out1⟩ := r
+        simp only [hr, Except.ok.injEq, Prod.mk.injEq] at h
+        obtain ⟨rfl, -, rfl⟩ := h
+        simp only [List.mem_cons, reduceCtorEq, false_or] at hq
+        exact ih hr hq
+    | req o0 q0 =>
+      simp only [moveReqs] at h
+      cases hl0 : lookup q0 m with
+      | none => simp only [hl0] at h; exact ih h hq
+      | some c0 =>
+        simp only [hl0] at h
+        by_cases hu0 : c0.unsent = true
+        · simp only [hu0, Bool.not_true, Bool.false_eq_true, if_false] at h
+          by_cases ho : (c0.owner != o0) = true
+          · simp [ho] at h
+          · simp only [ho, Bool.false_eq_true, if_false] at h
+            cases hr : moveReqs t (markSent q0 m) (n + 1) with
+            | error p => simp [hr] at h
+            | ok r =>
+              obtain ⟨m1, n1, out1⟩ := r
+              simp only [hr, Except.ok.injEq, Prod.mk.injEq] at h
+              obtain ⟨rfl, -, rfl⟩ := h
+              simp only [List.mem_cons, Pkt.req.injEq] at hq
+              rcases hq with rfl | hq
+              · exact moveReqs_sent_mono hr (lookup_markSent_self hl0) rfl
+              · exact ih hr hq
+        · simp only [Bool.not_eq_true] at hu0
+          simp [hu0] at h
+
+/-- where the queued requests of the next state come from -/
+theorem step_wq {ops σ evs op σ' e} (hi : Inv ops σ evs) (h : step σ op = .ok (σ', e)) :
+    ∀ q, q ∈ reqQids σ'.writeQ → q ∈ reqQids σ.writeQ ∨ q ∈ keys σ.calls ∨ ∃ o f dl cb, op = .setup o q f dl cb := by
+  intro q hq
+  have same : σ'.writeQ = σ.writeQ → q ∈ reqQids σ.writeQ ∨ q ∈ keys σ.calls ∨ ∃ o f dl cb, op = .setup o q f dl cb := by
+    intro hw; rw [hw] at hq; exact Or.inl hq
+  have mass : ∀ σ0 : Conn, σ0.calls = σ.calls → ∀ σ1 e0, massCancel σ0 = .ok (σ1, e0) → σ'.writeQ = σ1.writeQ →
+      q ∈ reqQids σ.writeQ ∨ q ∈ keys σ.calls ∨ ∃ o f dl cb, op = .setup o q f dl cb := by
+    intro σ0 h0 σ1 e0 hm hw
+    obtain ⟨kept, n, hl, -, -, hwq, -⟩ := massCancel_spec hm
+    rw [h0] at hl
+    obtain ⟨m1, -⟩ := massLoop_spec hl
+    rw [hw, hwq] at hq
+    have hp := (reqQids_requeue_perm kept).mem_iff.mp hq
+    simp only [List.mem_map] at hp
+    obtain ⟨⟨k, c⟩, hkc, rfl⟩ := hp
+    have hmem := (m1 _ hkc).1
+    have := hi.key k c hmem
+    right; left
+    simp only [keys, List.mem_map]
+    exact ⟨(k, c), hmem, this.symm⟩
+  cases op with
+  | setup o q0 fail dl cb =>
+    simp only [step] at h
+    rcases setupStep_spec h with ⟨rfl, -⟩ | ⟨-, -, rfl⟩
+    · exact Or.inl hq
+    · simp only [reqQids_append, List.mem_append, reqQids, List.mem_singleton] at hq
+      rcases hq with hq | rfl
+      · exact Or.inl hq
+      · exact Or.inr (Or.inr ⟨o, fail, dl, cb, rfl⟩)
+  | cancel q0 =>
+    simp only [step] at h
+    rcases cancelStep_spec h with ⟨-, rfl, -⟩ | ⟨c, -, -, -, -, -, hw, -⟩
+    · exact Or.inl hq
+    · rcases hw with hw | hw
+      · exact same hw
+      · rw [hw, reqQids_append] at hq; simp [reqQids] at hq; exact Or.inl hq
+  | resp q0 p =>
+    simp only [step] at h
+    rcases finishStep_spec h with ⟨-, rfl, -⟩ | ⟨c, -, -, -, -, -, hw, -⟩
+    · exact Or.inl hq
+    · exact same hw
+  | rerr q0 p =>
+    simp only [step] at h
+    rcases finishStep_spec h with ⟨-, rfl, -⟩ | ⟨c, -, -, -, -, -, hw, -⟩
+    · exact Or.inl hq
+    · exact same hw
+  | sfin => simp only [step] at h; exact same (shutdownStep_spec h).2.1
+  | unk => simp only [step, Except.ok.injEq, Prod.mk.injEq] at h; obtain ⟨rfl, -⟩ := h; exact Or.inl hq
+  | bi => simp only [step, Except.ok.injEq, Prod.mk.injEq] at h; obtain ⟨rfl, -⟩ := h; exact Or.inl hq
+  | send =>
+    simp only [step] at h
+    rcases sendStep_spec h with ⟨-, hw, -⟩ | ⟨out, -, -, -, hw, -⟩
+    · exact same hw
+    · rw [hw] at hq; simp [reqQids] at hq
+  | connect =>
+    simp only [step] at h
+    split at h <;>
+    · simp only [Except.ok.injEq, Prod.mk.injEq] at h
+      obtain ⟨rfl, -⟩ := h
+      exact Or.inl hq
+  | drop => simp only [step] at h; exact same (dropStep_spec h).2.1
+  | disc good =>
+    simp only [step] at h
+    cases hm : massCancel σ with
+    | error p => simp [hm] at h
+    | ok r =>
+      obtain ⟨σ1, evs1⟩ := r
+      simp only [hm, Except.ok.injEq, Prod.mk.injEq] at h
+      obtain ⟨rfl, -⟩ := h
+      exact mass σ rfl σ1 evs1 hm (by split <;> rfl)
+  | gc =>
+    simp only [step] at h
+    split at h
+    · exact mass σ rfl σ' e h rfl
+    · simp only [Except.ok.injEq, Prod.mk.injEq] at h
+      obtain ⟨rfl, -⟩ := h
+      exact Or.inl hq
+  | close => simp only [step] at h; exact same (dropStep_spec h).2.1
+
+/-- what the history-level guard maintains -/
+structure TInv (ops : List Op) (σ : Conn) (evs : List Ev) : Prop where
+  keysSetup : ∀ k, k ∈ keys σ.calls → k ∈ setupQids ops
+  wqSetup : ∀ q, q ∈ reqQids σ.writeQ → q ∈ setupQids ops
+  unsentNotWritten : ∀ k c, (k, c) ∈ σ.calls → c.unsent = true → Ev.pkt (.req k) ∉ evs
+  writtenSetup : ∀ q, Ev.pkt (.req q) ∈ evs → q ∈ setupQids ops
+
+theorem mem_setupQids_snoc {ops : List Op} {op : Op} {q : Nat} :
+    q ∈ setupQids (ops ++ [op]) ↔ q ∈ setupQids ops ∨ ∃ o f dl cb, op = .setup o q f dl cb := by
+  rw [setupQids_append, List.mem_append]
+  cases op <;> simp [setupQids]
+  rename_i o q0 f dl cb
+  constructor
+  · rintro (h | rfl)
+    · exact Or.inl h
+    · exact Or.inr rfl
+  · rintro (h | h)
+    · exact Or.inl h
+    · exact Or.inr h.symm
+
+theorem tinv_step {ops σ evs op σ' e} (hi : Inv ops σ evs) (ht : TInv ops σ evs) (hwb : op.twb ops evs)
+    (h : step σ op = .ok (σ', e)) : TInv (ops ++ [op]) σ' (evs ++ e) := by
+  obtain ⟨p1, p2, -⟩ := step_prov h
+  obtain ⟨-, -, e3⟩ := step_events h
+  have hi' : Inv (ops ++ [op]) σ' (evs ++ e) := reach_inv_step hi h
+  refine ⟨?_, ?_, ?_, ?_⟩
+  · intro k hk
+    simp only [keys, List.mem_map] at hk
+    obtain ⟨⟨k', c'⟩, hm, rfl⟩ := hk
+    rw [mem_setupQids_snoc]
+    rcases p1 k' c' hm with ⟨c, hc, -⟩ | ⟨hop, -⟩
+    · left; apply ht.keysSetup; simp only [keys, List.mem_map]; exact ⟨(k', c), hc, rfl⟩
+    · right; exact ⟨_, _, _, _, hop⟩
+  · intro q hq
+    rw [mem_setupQids_snoc]
+    rcases step_wq hi h q hq with h1 | h1 | h1
+    · exact Or.inl (ht.wqSetup q h1)
+    · exact Or.inl (ht.keysSetup q h1)
+    · exact Or.inr h1
+  · intro k c' hm hu hmem
+    simp only [List.mem_append] at hmem
+    rcases p1 k c' hm with ⟨c, hc, hs⟩ | ⟨hop, -⟩
+    · have hcu : c.unsent = true := hs.2.2.2.2.2 hu
+      rcases hmem with hmem | hmem
+      · exact ht.unsentNotWritten k c hc hcu hmem
+      · -- written in this very step: then the call is marked sent
+        obtain ⟨hsend, -, -⟩ := e3 k hmem
+        subst hsend
+        simp only [step] at h
+        rcases sendStep_spec h with ⟨-, -, -, -, he⟩ | ⟨out, -, -, hmv, -, -, he⟩
+        · rcases he with rfl | rfl | rfl <;> simp at hmem
+        · have hout : Pkt.req k ∈ out := by
+            rcases he with rfl | rfl
+            · simpa using hmem
+            · simp only [List.mem_append, List.mem_map, Ev.pkt.injEq, exists_eq_right, List.mem_singleton,
+                reduceCtorEq, or_false] at hmem
+              exact hmem
+          obtain ⟨c2, hl2, hu2⟩ := moveReqs_out_sent hmv hout
+          have := lookup_of_mem_nodup hi'.nodup hm
+          rw [this] at hl2
+          simp only [Option.some.injEq] at hl2
+          subst hl2
+          simp [hu] at hu2
+    · -- a call set up in this step with a fresh id
+      have hfresh : k ∉ setupQids ops := by rw [hop] at hwb; exact hwb
+      rcases hmem with hmem | hmem
+      · exact hfresh (ht.writtenSetup k hmem)
+      · obtain ⟨hsend, -, -⟩ := e3 k hmem
+        rw [hop] at hsend; simp at hsend
+  · intro q hmem
+    rw [mem_setupQids_snoc]
+    simp only [List.mem_append] at hmem
+    rcases hmem with hmem | hmem
+    · exact Or.inl (ht.writtenSetup q hmem)
+    · obtain ⟨-, -, hk⟩ := e3 q hmem
+      exact Or.inl (ht.keysSetup q hk)
+
+theorem twb_wb {ops σ evs} {op : Op} (ht : TInv ops σ evs) (hwb : op.twb ops evs) : op.wb σ = true := by
+  have resp : ∀ q, (Ev.pkt (.req q) ∈ evs ∨ q ∉ setupQids ops) →
+      (match lookup q σ.calls with | some c => !c.unsent | none => true) = true := by
+    intro q hq
+    cases hl : lookup q σ.calls with
+    | none => rfl
+    | some c =>
+      simp only [Bool.not_eq_eq_eq_not, Bool.not_true]
+      cases hu : c.unsent with
+      | false => rfl
+      | true =>
+        rcases hq with hq | hq
+        · exact absurd hq (ht.unsentNotWritten q c (lookup_mem hl) hu)
+        · exact absurd (ht.keysSetup q (mem_keys_of_lookup hl)) hq
+  cases op with
+  | setup o q f dl cb =>
+    simp only [Op.twb] at hwb
+    simp only [Op.wb, Bool.and_eq_true, Option.isNone_iff_eq_none, Bool.not_eq_eq_eq_not, Bool.not_true,
+      List.contains_eq_mem, decide_eq_false_iff_not]
+    refine ⟨lookup_none_of_not_mem_keys (fun hk => hwb (ht.keysSetup q hk)), fun hq => hwb (ht.wqSetup q hq)⟩
+  | resp q p => exact resp q hwb
+  | rerr q p => exact resp q hwb
+  | _ => rfl
+
+theorem treach_inv {ops σ evs} (h : TReach ops σ evs) : TInv ops σ evs := by
+  induction h with
+  | init => exact ⟨by simp [Conn.init, keys], by simp [Conn.init, reqQids], by simp [Conn.init], by simp⟩
+  | snoc hr hwb hs ih => exact tinv_step (reach_inv hr.reach) ih hwb hs
+
+/-- the history-level guard implies the state-level one at every step -/
+theorem TReach.greach {ops σ evs} (h : TReach ops σ evs) : GReach ops σ evs := by
+  induction h with
+  | init => exact .init
+  | snoc hr hwb hs ih => exact .snoc ih (twb_wb (treach_inv hr) hwb) hs
+
+/-- a request is written by `moveRequestsToSendLocked` only for a call that was registered and unsent when the
+send loop took the queue … -/
+theorem moveReqs_out_unsent {wq : List WQ} {m : List (Nat × Call)} {n : Int} {m' n' out} {q : Nat}
+    (h : moveReqs wq m n = .ok (m', n', out)) (hq : Pkt.req q ∈ out) :
+    ∃ c, lookup q m = some c ∧ c.unsent = true := by
+  induction wq generalizing m n m' n' out with
+  | nil =>
+    simp only [moveReqs, Except.ok.injEq, Prod.mk.injEq] at h
+    obtain ⟨-, -, rfl⟩ := h
+    simp at hq
+  | cons w t ih =>
+    cases w with
+    | cancel q0 =>
+      simp only [moveReqs] at h
+      cases hr : moveReqs t m n with
+      | error p => simp [hr] at h
+      | ok r =>
+        obtain ⟨m1, n1, out1⟩ := r
+        simp only [hr, Except.ok.injEq, Prod.mk.injEq] at h
+        obtain ⟨-, -, rfl⟩ := h
+        simp only [List.mem_cons, reduceCtorEq, false_or] at hq
+        exact ih hr hq
+    | req o0 q0 =>
+      simp only [moveReqs] at h
+      cases hl0 : lookup q0 m with
+      | none => simp only [hl0] at h; exact ih h hq
+      | some c0 =>
+        simp only [hl0] at h
+        by_cases hu0 : c0.unsent = true
+        · simp only [hu0, Bool.not_true, Bool.false_eq_true, if_false] at h
+          by_cases ho : (c0.owner != o0) = true
+          · simp [ho] at h
+          · simp only [ho, Bool.false_eq_true, if_false] at h
+            cases hr : moveReqs t (markSent q0 m) (n + 1) with
+            | error p => simp [hr] at h
+            | ok r =>
+              obtain ⟨m1, n1, out1⟩ := r
+              simp only [hr, Except.ok.injEq, Prod.mk.injEq] at h
+              obtain ⟨-, -, rfl⟩ := h
+              by_cases hqq : q = q0
+              · subst hqq; exact ⟨c0, hl0, hu0⟩
+              · simp only [List.mem_cons, Pkt.req.injEq, hqq, false_or] at hq
+                obtain ⟨c, hc, hu⟩ := ih hr hq
+                rw [lookup_markSent_ne hqq] at hc
+                exact ⟨c, hc, hu⟩
+        · simp only [Bool.not_eq_true] at hu0
+          simp [hu0] at h
+
+/-- … and at most once per run of the send loop -/
+theorem moveReqs_out_count {wq : List WQ} {m : List (Nat × Call)} {n : Int} {m' n' out} (q : Nat)
+    (h : moveReqs wq m n = .ok (m', n', out)) : out.count (Pkt.req q) ≤ 1 := by
+  induction wq generalizing m n m' n' out with
+  | nil =>
+    simp only [moveReqs, Except.ok.injEq, Prod.mk.injEq] at h
+    obtain ⟨-, -, rfl⟩ := h
+    simp
+  | cons w t ih =>
+    cases w with
+    | cancel q0 =>
+      simp only [moveReqs] at h
+      cases hr : moveReqs t m n with
+      | error p => simp [hr] at h
+      | ok r =>
+        obtain ⟨m1, n1, out1⟩ := r
+        simp only [hr, Except.ok.injEq, Prod.mk.injEq] at h
+        obtain ⟨-, -, rfl⟩ := h
+        have := ih hr
+        simp only [List.count_cons, beq_iff_eq, reduceCtorEq, if_false]
+        omega
+    | req o0 q0 =>
+      simp only [moveReqs] at h
+      cases hl0 : lookup q0 m with
+      | none => simp only [hl0] at h; exact ih h
+      | some c0 =>
+        simp only [hl0] at h
+        by_cases hu0 : c0.unsent = true
+        · simp only [hu0, Bool.not_true, Bool.false_eq_true, if_false] at h
+          by_cases ho : (c0.owner != o0) = true
+          · simp [ho] at h
+          · simp only [ho, Bool.false_eq_true, if_false] at h
+            cases hr : moveReqs t (markSent q0 m) (n + 1) with
+            | error p => simp [hr] at h
+            | ok r =>
+              obtain ⟨m1, n1, out1⟩ := r
+              simp only [hr, Except.ok.injEq, Prod.mk.injEq] at h
+              obtain ⟨-, -, rfl⟩ := h
+              have := ih hr
+              simp only [List.count_cons, beq_iff_eq, Pkt.req.injEq]
+              by_cases hqq : q0 = q
+              · subst hqq
+                have hz : out1.count (Pkt.req q0) = 0 := by
+                  rw [List.count_eq_zero]
+                  intro hmem
+                  obtain ⟨c, hc, hu⟩ := moveReqs_out_unsent hr hmem
+                  rw [lookup_markSent_self hl0] at hc
+                  simp only [Option.some.injEq] at hc
+                  subst hc
+                  simp at hu
+                simp [hz]
+              · simp only [hqq, if_false]; omega
+        · simp only [Bool.not_eq_true] at hu0
+          simp [hu0] at h
+
+theorem count_map_pkt (out : List Pkt) (p : Pkt) : (out.map Ev.pkt).count (Ev.pkt p) = out.count p := by
+  induction out with
+  | nil => rfl
+  | cons x t ih =>
+    simp only [List.map_cons, List.count_cons, ih, beq_iff_eq, Ev.pkt.injEq]
+
+/-- under the history-level guard, the request of a query id is written to the connection at most once -/
+theorem treach_written_once {ops σ evs} (h : TReach ops σ evs) (q : Nat) : evs.count (Ev.pkt (.req q)) ≤ 1 := by
+  induction h with
+  | init => simp
+  | @snoc ops σ evs op σ' e hr hwb hs ih =>
+    rw [List.count_append]
+    by_cases hm : Ev.pkt (.req q) ∈ e
+    · -- written now: it was registered unsent, hence never written before
+      obtain ⟨-, -, e3⟩ := step_events hs
+      obtain ⟨hsend, -, -⟩ := e3 q hm
+      subst hsend
+      simp only [step] at hs
+      rcases sendStep_spec hs with ⟨-, -, -, -, he⟩ | ⟨out, -, -, hmv, -, -, he⟩
+      · rcases he with rfl | rfl | rfl <;> simp at hm
+      · have hout : Pkt.req q ∈ out := by
+          rcases he with rfl | rfl
+          · simpa using hm
+          · simp only [List.mem_append, List.mem_map, Ev.pkt.injEq, exists_eq_right, List.mem_singleton,
+              reduceCtorEq, or_false] at hm
+            exact hm
+        obtain ⟨c, hc, hu⟩ := moveReqs_out_unsent hmv hout
+        have hz : evs.count (Ev.pkt (.req q)) = 0 :=
+          List.count_eq_zero.mpr ((treach_inv hr).unsentNotWritten q c (lookup_mem hc) hu)
+        have hc1 := moveReqs_out_count q hmv
+        have : e.count (Ev.pkt (.req q)) = out.count (Pkt.req q) := by
+          rcases he with rfl | rfl
+          · exact count_map_pkt out _
+          · rw [List.count_append, count_map_pkt]; simp
+        omega
+    · have : e.count (Ev.pkt (.req q)) = 0 := List.count_eq_zero.mpr hm
+      omega
 
 end TLVerif.Rpccalls
